@@ -9,7 +9,7 @@
      _r_comment  (cparser.py:27)   /\*.*?\*/|//([^\n\\]|\\.)*?$    DOTALL|MULTILINE
      replace_keeping_newlines (cparser.py:195)   ' ' + m.group().count('\n') * '\n'
      _r_words    (cparser.py:36)   \w+|\S           (input of _common_type_names, :255)
-     _r_define   (cparser.py:29)   ^\s*#\s*define\s+([A-Za-z_][A-Za-z_0-9]* )\b((?:[^\n\\]|\\.)*?)$
+     _r_define   (cparser.py:29)   ^\s*#(?:\s|\\\n)*define(?:\s|\\\n)+([A-Za-z_][A-Za-z_0-9]* )\b((?:[^\n\\]|\\.)*?)$
      macro value (cparser.py:202)  macrovalue.replace('\\\n', '').strip()
      _r_line_directive (cparser.py:32)  ^[ \t]*#[ \t]*(?:line|\d+)\b.*$   MULTILINE
      _remove_line_directives / _put_back_line_directives (cparser.py:167-187)
@@ -221,31 +221,47 @@ Definition macro_value (raw : text) : text := strip_ws (remove_bsnl raw).
 
 Definition s_define : text := [100; 101; 102; 105; 110; 101].    (* "define" *)
 
-(* _r_define matched at a line start: Some (name, raw value, rest after the match) *)
+(* (?:\s|\\\n)*  : white space and backslash-newline pairs *)
+Fixpoint skip_cont (s : text) : text :=
+  match s with
+  | c :: r =>
+      if is_space c then skip_cont r
+      else if c =? BSL then
+        match r with
+        | d :: r' => if d =? NL then skip_cont r' else s
+        | [] => s
+        end
+      else s
+  | [] => []
+  end.
+Definition starts_cont (s : text) : bool :=          (* at least one item of that class *)
+  match s with
+  | c :: r => is_space c || ((c =? BSL) && match r with d :: _ => d =? NL | [] => false end)
+  | [] => false
+  end.
+
+(* _r_define matched at a line start: Some (name, raw value, rest after the match)
+   ^\s*#(?:\s|\\\n)*define(?:\s|\\\n)+NAME\b(value)$ *)
 Definition define_at (s : text) : option (text * text * text) :=
   match skip_while is_space s with
   | c :: r =>
       if c =? HASH then
-        match starts_with s_define (skip_while is_space r) with
+        match starts_with s_define (skip_cont r) with
         | Some r2 =>
-            match r2 with
-            | w :: _ =>
-                if is_space w then
-                  let r3 := skip_while is_space r2 in
-                  match r3 with
-                  | a :: _ =>
-                      if is_alpha_ a then
-                        let name := take_while is_word r3 in
-                        match value_end (skip_while is_word r3) with
-                        | Some (v, rest) => Some (name, v, rest)
-                        | None => None
-                        end
-                      else None
-                  | [] => None
-                  end
-                else None
-            | [] => None
-            end
+            if starts_cont r2 then
+              let r3 := skip_cont r2 in
+              match r3 with
+              | a :: _ =>
+                  if is_alpha_ a then
+                    let name := take_while is_word r3 in
+                    match value_end (skip_while is_word r3) with
+                    | Some (v, rest) => Some (name, v, rest)
+                    | None => None
+                    end
+                  else None
+              | [] => None
+              end
+            else None
         | None => None
         end
       else None
@@ -364,8 +380,9 @@ Fixpoint stash_lines (ls : list text) (i : N) : list text * list text :=
 Definition remove_line_directives (s : text) : text * list text :=
   let (out, st) := stash_lines (split_lines s) 0 in (join_lines out, st).
 
-(* exceptions that _put_back_line_directives can raise (cparser.py:180-187) *)
-Inductive exn := AssertionError | IndexError | ValueError | Unmodelled.
+(* _put_back_line_directives (cparser.py:186-197) turns every failure of its replace() -- a directive-like
+   line that is not a placeholder, int() failing, an index out of range -- into CDefError *)
+Inductive exn := CDefError | Unmodelled.
 Inductive result (A : Type) := Ok (a : A) | Err (e : exn).
 Arguments Ok {A} a.
 Arguments Err {A} e.
@@ -376,16 +393,16 @@ Fixpoint restore_lines (ls : list text) (st : list text) : result (list text) :=
   | l :: ls' =>
       if is_dirline l then
         match starts_with s_lineat l with
-        | None => Err AssertionError              (* cparser.py:183 *)
+        | None => Err CDefError                   (* raise ValueError -> CDefError *)
         | Some num =>
             match undec num with
             | None =>                              (* int(s[6:]) on something that is not [0-9]+ :
-                                                      ValueError, or Python's laxer int() grammar
-                                                      (sign, blanks, '_') which is not modelled *)
+                                                      ValueError -> CDefError, or Python's laxer int()
+                                                      grammar (sign, blanks, '_') which is not modelled *)
                 Err Unmodelled
             | Some i =>
                 match nth_error st (N.to_nat i) with
-                | None => Err IndexError
+                | None => Err CDefError                (* IndexError -> CDefError *)
                 | Some d =>
                     match restore_lines ls' st with
                     | Ok out => Ok (d :: out)
@@ -408,8 +425,12 @@ Definition put_back_line_directives (s : text) (st : list text) : result text :=
 
 (* ------------------------------------------------------------------ _preprocess *)
 
+(* _r_other_whitespace.sub(' ', csource) (cparser.py:199-202): \r \f \v become blanks *)
+Definition other_ws (c : N) : bool := (c =? 13) || (c =? 12) || (c =? 11).
+Definition normalize_ws (s : text) : text := map (fun c => if other_ws c then SP else c) s.
+
 Definition preprocess (s : text) : result (text * macros) :=
-  let (s1, st) := remove_line_directives s in
+  let (s1, st) := remove_line_directives (normalize_ws s) in
   let s2 := sc s1 in
   let (s3, ms) := process_defines s2 in
   match put_back_line_directives s3 st with
@@ -420,7 +441,7 @@ Definition preprocess (s : text) : result (text * macros) :=
 (* ------------------------------------------------------------------ for the correspondence *)
 
 Definition exn_code (e : exn) : N :=
-  match e with AssertionError => 1 | IndexError => 2 | ValueError => 3 | Unmodelled => 9 end.
+  match e with CDefError => 4 | Unmodelled => 9 end.
 (* (0, text, macros) or (code, [], []) *)
 Definition preprocess_out (s : text) : N * (text * list (text * text)) :=
   match preprocess s with
